@@ -79,6 +79,43 @@ class Fn:
         self._occ = {}
         self._thr = None
         self.cur_site = ("entry",)
+        self._roundtrip = None
+
+    # ---- checked narrowing: `let y = x as T; if y as U != x { reject }` ------------------------
+    def roundtrip(self):
+        """(ids of narrowing cast statements that are checked by a round-trip comparison, {id of the comparison statement: (local of x, T)})"""
+        if self._roundtrip is None:
+            import rules
+            copies = rules._copies(self.mir)
+            casts = {}       # dest local -> (stmt, root of source local, target type)
+            for b in self.blocks:
+                if b.get("cleanup"):
+                    continue
+                for st in b["s"]:
+                    if st["k"] == "assign" and not st["pl"]["p"] and st["rv"]["k"] == "cast" and st["rv"]["ck"].startswith("IntToInt") and st["rv"]["x"]["k"] in ("copy", "move") and not st["rv"]["x"]["pl"]["p"]:
+                        casts[st["pl"]["l"]] = (st, rules._root(copies, st["rv"]["x"]["pl"]["l"]), st["rv"]["to"])
+            checked, cmps = set(), {}
+            for b in self.blocks:
+                if b.get("cleanup"):
+                    continue
+                for st in b["s"]:
+                    if st["k"] == "assign" and st["rv"]["k"] == "bin" and st["rv"]["op"] in ("Eq", "Ne"):
+                        l_, r_ = st["rv"]["l"], st["rv"]["r"]
+                        if l_["k"] not in ("copy", "move") or r_["k"] not in ("copy", "move") or l_["pl"]["p"] or r_["pl"]["p"]:
+                            continue
+                        for back, orig in ((l_, r_), (r_, l_)):
+                            zb = casts.get(rules._root(copies, back["pl"]["l"]))
+                            if not zb:
+                                continue
+                            yb = casts.get(zb[1])
+                            if not yb:
+                                continue
+                            x = yb[1]
+                            if rules._root(copies, orig["pl"]["l"]) == x and self.ltys[x] == zb[2]:
+                                checked.add(id(yb[0]))
+                                cmps[id(st)] = (x, yb[2])
+            self._roundtrip = (checked, cmps)
+        return self._roundtrip
 
     # ---- descriptions for stable obligation keys ------------------------------------------
     def descr_table(self):
@@ -741,6 +778,12 @@ class Fn:
             return BOT, None
         ia, ib = self.as_int(a, ta), self.as_int(b, tb)
         if op in CMPS:
+            rt = self.roundtrip()[1].get(id(s))
+            if rt is not None:
+                rng = E.int_range_of_ty(rt[1])
+                if rng is not None:
+                    x = rt[0]
+                    return BOOL, ("cmp", ("In" if op == "Eq" else "NotIn", ("pl", x, (), st.ver.get(x, 0)), None, None, ("i", rng[0], rng[1])))
             facts = ("cmp", (op, self.src_of(st, rv["l"]), self.src_of(st, rv["r"]),
                              ia if rv["l"]["k"] == "const" else None, ib if rv["r"]["k"] == "const" else None))
             if op in ("Lt", "Le", "Gt", "Ge") and st.ordf:
@@ -880,6 +923,9 @@ class Fn:
             if iv[1] >= rng[0] and iv[2] <= rng[1]:
                 return iv
             src_t = E.ty(ty) if ty is not None else {}
+            if id(s) in self.roundtrip()[0]:
+                # a narrowing whose result is cast back and compared with the original: the comparison decides, not the cast
+                return ("i", rng[0], rng[1])
             # enum discriminant / bool / char sources are never lossy in practice; report integers only
             if src_t.get("k") in ("int", "uint") and not s.get("x"):
                 self.oblige(bi, "lossy-cast", "%s as %s" % (self.d_op(rv["x"]), E.ty(to)["s"]), s["ln"], False,
